@@ -2,7 +2,9 @@
 "MiniPy" — the fragment of Python on which C01 ("accepted programs do not go wrong") is *proved*
 (stage 1: classes, Optional/Union, isinstance/None narrowing, if/while; stage 2: truthiness of Optional[class]
 locals, `<`, `-`, break/continue, un-annotated first assignments; stage 3: multiple inheritance — the MRO is part
-of the program term, taken from Python's `__mro__`).
+of the program term, taken from Python's `__mro__`; stage 4: `raise` / `try … except (E…) … else … finally` over a
+fixed set of exception classes, Python-level failures unwind through `finally` like any exception; stage 5: classes
+with a user-defined `__bool__`).
 Hand-written, import-free, executable.  This file: syntax, the class table, values, and the dynamic side —
 a big-step fuel interpreter `evalE / evalS` with CPython's behaviour on the fragment:
 
@@ -17,8 +19,10 @@ a big-step fuel interpreter `evalE / evalS` with CPython's behaviour on the frag
                                    parameters only (no `self` on a right-hand side), so "evaluate the right-hand
                                    sides in order, then allocate the finished object" is observationally the same
   * `isinstance(x, C)`, `x is None`, `x is not None`, `not`, `and`, `or` (operand value, short-circuit), `==`
-    (numeric across int/bool, structural on str, identity on objects), `+` (int/bool → int, str+str → str,
-    anything else TypeError), `-` (int/bool → int), `<` (int/bool numerically, str lexicographically, else TypeError), `probe(k, e)` (records the value of `e`, returns None)
+    (numeric across int/bool, structural on str, identity on objects); the truth value of a condition / operand
+    of `not`, `and`, `or` is `bool(v)`: a user-defined `__bool__` (method id 9) decides for instances of a class
+    that has one (it must take no argument and return a bool, else TypeError), other instances are true;
+    `+` (int/bool → int, str+str → str, anything else TypeError), `-` (int/bool → int), `<` (int/bool numerically, str lexicographically, else TypeError), `probe(k, e)` (records the value of `e`, returns None)
   * statements: `x: T = e`, `x = e`, `e.f = e'` (right-hand side first, as CPython does), expression statement,
     `return e`, `if/else` (elif = nested), `while` with `break`/`continue`, sequencing, `pass`, `raise E()`,
     `try/except (E…)/else/finally` (one handler clause naming the caught classes)
@@ -333,6 +337,31 @@ def callBody (ev : Store → Stmt → M Ctl) (fd : FuncDef) (args : List Val) : 
     | .exc f _ => M.fail f                -- propagates to the caller
     | _ => M.fail .stuck                  -- `break`/`continue` outside a loop: a SyntaxError in Python
 
+/-- the method id that stands for `__bool__` -/
+def boolMeth : Nat := 9
+
+/-- `__bool__` must return a bool (else CPython raises TypeError) -/
+def asBool (r : Val) : M Bool :=
+  match r with
+  | .bool b => M.pure b
+  | _ => M.fail .typeError
+
+/-- `bool(v)` as Python computes it for a condition (`ev` = `evalS n P`): a user-defined `__bool__` decides for
+    instances of a class that has one (it must return a bool), other instances are true -/
+def truthOf (ev : Store → Stmt → M Ctl) (P : Prog) (v : Val) : M Bool := fun st =>
+  match v with
+  | .ref l =>
+    match classOf st.heap l with
+    | some k =>
+      match lookupMeth P k boolMeth with
+      | some (_, fd) =>
+        if fd.params.isEmpty then
+          (M.bind (callBody ev fd [v]) asBool) st
+        else (.error .typeError, st)
+      | none => (.ok true, st)
+    | none => (.error .stuck, st)
+  | _ => (.ok (truthy v), st)
+
 /-- evaluate an expression inside a statement: an exception raised by it (in a callee) becomes the
     statement's outcome, with the locals as they are (expressions do not assign locals) -/
 def liftE {α : Type} (σ : Store) (m : M α) (f : α → M Ctl) : M Ctl := fun st =>
@@ -393,9 +422,11 @@ def evalE : Nat → Prog → Store → Expr → M Val
           else M.fail .typeError
     | .isinst x c => M.bind (readVar σ x) fun v => M.bind (instOf P c v) fun b => M.pure (.bool b)
     | .isNone x neg => M.bind (readVar σ x) fun v => M.pure (.bool ((v == .none) != neg))
-    | .not e => M.bind (evalE n P σ e) fun v => M.pure (.bool (!truthy v))
-    | .and a b => M.bind (evalE n P σ a) fun v => if truthy v then evalE n P σ b else M.pure v
-    | .or a b => M.bind (evalE n P σ a) fun v => if truthy v then M.pure v else evalE n P σ b
+    | .not e => M.bind (evalE n P σ e) fun v => M.bind (truthOf (evalS n P) P v) fun t => M.pure (.bool (!t))
+    | .and a b => M.bind (evalE n P σ a) fun v => M.bind (truthOf (evalS n P) P v) fun t =>
+        if t then evalE n P σ b else M.pure v
+    | .or a b => M.bind (evalE n P σ a) fun v => M.bind (truthOf (evalS n P) P v) fun t =>
+        if t then M.pure v else evalE n P σ b
     | .eq a b => M.bind (evalE n P σ a) fun v => M.bind (evalE n P σ b) fun w => M.pure (.bool (valEq v w))
     | .add a b =>
         M.bind (evalE n P σ a) fun v => M.bind (evalE n P σ b) fun w =>
@@ -442,10 +473,11 @@ def evalS : Nat → Prog → Store → Stmt → M Ctl
         liftE σ (putAttr r f v) fun _ => M.pure (.normal σ)
     | .expr e => liftE σ (evalE n P σ e) fun _ => M.pure (.normal σ)
     | .ret e => liftE σ (evalE n P σ e) fun v => M.pure (.ret v σ)
-    | .ite c t e => liftE σ (evalE n P σ c) fun v => if truthy v then evalS n P σ t else evalS n P σ e
+    | .ite c t e => liftE σ (evalE n P σ c) fun v => liftE σ (truthOf (evalS n P) P v) fun tv =>
+        if tv then evalS n P σ t else evalS n P σ e
     | .while c b =>
-        liftE σ (evalE n P σ c) fun v =>
-        if truthy v then
+        liftE σ (evalE n P σ c) fun v => liftE σ (truthOf (evalS n P) P v) fun tv =>
+        if tv then
           M.bind (evalS n P σ b) fun
             | .normal σ' => evalS n P σ' (.while c b)
             | .cont σ' => evalS n P σ' (.while c b)
